@@ -20,6 +20,7 @@ import (
 var (
 	DatasetNotFoundErr      error = errors.New("Dataset not found")
 	DatasetAlreadyExistsErr error = errors.New("Dataset already exists")
+	InvalidDatasetErr       error = errors.New("Dataset must have a dimension, a partition count and a replication factor of at least 1 and a known space")
 )
 
 type DatasetManager struct {
@@ -104,6 +105,13 @@ func (this *DatasetManager) Get(id uuid.UUID) (*Dataset, error) {
 }
 
 func (this *DatasetManager) Create(ctx context.Context, dataset *pb.Dataset) (*Dataset, error) {
+	if dataset.GetDimension() == 0 || dataset.GetPartitionCount() == 0 || dataset.GetReplicationFactor() == 0 {
+		return nil, InvalidDatasetErr
+	}
+	if _, exists := pb.Space_name[int32(dataset.GetSpace())]; !exists {
+		return nil, InvalidDatasetErr
+	}
+
 	ctx, cancelCtx := context.WithTimeout(ctx, 1*time.Second)
 	defer cancelCtx()
 
